@@ -569,8 +569,9 @@ class Spectrum:
             raise ValueError('Unknown method ', interp_method)
 
         if preserve_power:
-            norm_factor = self.integrate(np.min(wave), np.max(wave), method=interp_method)/np.sum(bins)
-            bins *= norm_factor
+            total = np.sum(bins)
+            if total != 0:
+                bins *= self.integrate(np.min(wave), np.max(wave), method=interp_method)/total
 
         return bins
 
